@@ -544,10 +544,15 @@ func (w *world) startOp(o *wobj, kind string, size int, prog []whop, from string
 			})
 			break
 		}
-		o.pc.AsyncReadFrom(p.buf, func(err error, n int, addr net.Addr) {
+		rcb := func(err error, n int, addr net.Addr) {
 			p.addr = addr
 			w.complete(p, err, n)
-		})
+		}
+		if p.id%3 == 1 {
+			o.pc.AsyncReadAllFrom(p.buf, rcb) // on a datagram socket: completes with the next datagram like AsyncReadFrom
+		} else {
+			o.pc.AsyncReadFrom(p.buf, rcb)
+		}
 	case "writeTo":
 		for i := range p.buf {
 			p.buf[i] = byte(p.id + i)
